@@ -215,7 +215,8 @@ def run(tier):
                 "events_validated": stats["events"], "truncated_by_violation": stats["truncated"],
                 "reorgs_that_readded": readded,
                 "recovered_or_concurrent_entries": sum(len(e.get("recovered", [])) for d in docs for e in d["events"]),
-                "histories_ended_by_async_replacement": sum(1 for d in docs if d.get("stopped")), "fixture_stops": stops[:5]})
+                "histories_ended_by_async_replacement": sum(1 for d in docs if d.get("stopped")), "fixture_stops": stops[:5],
+                "dep_group_users_pooled_with_member_creator": sum(d["summary"].get("dep_groups", [0, 0, 0, 0])[2] for d in docs)})
     c.set("random_histories", tot)
     if stops and not c.violations:
         raise V.ToolError("histories ended by a fixture error (never on the unchanged tree): %s" % stops[:3])
